@@ -1241,6 +1241,9 @@ func exprString(e influxql.Expr) string {
 
 func Run(c *hx.Ctx) error {
 	logger.SetLogger(zap.NewNop())
+	if err := config.SetHaPolicy(config.WAFPolicy); err != nil {
+		return err
+	}
 	meta.DataLogger = zap.NewNop()
 	c.Stats.Rule = "catalogues built through meta.Data (1-8 partitions, hash and range sharding, shard keys of 0-3 tags, " +
 		"1-5 shard groups of 1h..7d with gaps, deleted / truncated / overlapping groups, per-measurement shard lists) x points " +
@@ -1311,6 +1314,9 @@ func Run(c *hx.Ctx) error {
 			nq := 3 + r.Intn(6)
 			for i := 0; i < nq; i++ {
 				bs.runMapQuery(c, r)
+			}
+			if bs.client != nil {
+				bs.recoverAndRead(r, c)
 			}
 		}
 	}
